@@ -247,6 +247,16 @@ A **twelfth round** (`seeded/<ID>l/`; eleven earlier summaries given; run in two
 | C11l | the ERROR reply to an UNSUBSCRIBE also forgets the subscription id: a handler that joined the id meanwhile loses its events (EVENT becomes a protocol violation) | my model declared the state after a refused unsubscribe "unspecified" and never shared an id that had an UNSUBSCRIBE in flight | enumerated job: refused UNSUBSCRIBE with a second handler joining before / after the ERROR, events before and after |
 | C20l | ERROR payloads are left in the clear for `wamp.error.*` URIs, which includes every plain Python exception | the endpoint always raised an application URI | the endpoint raises an application URI, a standard `wamp.error.*` URI or a plain exception |
 
+Side observations of the round-12 agents on the unmodified tree, and what became of them: *RESULT / ERROR kwargs named like `CallResult` /
+`ApplicationError` constructor parameters raise TypeError in `onMessage`* - the reserved-name exclusion of §3 again (a genuine robustness gap of the
+library, outside what the generators admit; not asserted either way); *a clean close after HELLO and before WELCOME completes `start()`* - not an
+outcome the statement lists (the unclean variant is now generated); *RawSocket PING / PONG frames make an exception escape* - legal RawSocket frames
+the statement says nothing about (frame types 3..7 are generated as "wrong type"); *a message of exactly 2^24 octets is framed as an empty PING* -
+messages of 16 MiB are not generated (§6); *`Sec-WebSocket-Version: 1_3` admitted, window bits `+10` accepted* - the `int()` leniencies listed as
+don't-cares in §3; *a version-8 request carrying `Origin` instead of `Sec-WebSocket-Origin` passes the allow-list* - for that draft version `Origin`
+is not the origin header, a request without one is admitted; *lenient base64 decoding of the SCRAM server signature* - every single-bit alteration
+of the signature *bytes* is rejected (enumerated); alterations of the text that decode to the same bytes prove the same signature.
+
 Round 4 also produced two mutants that do not terminate (C15d on the receive path, C02d under interleaving): a check
 that hangs is useless, so every case / machine step / enumeration block now runs under a CPU-time guard (150 s of CPU of
 the worker process, not wall clock; virtual clocks make a normal case a matter of milliseconds). A stall is reported as
